@@ -482,6 +482,12 @@ impl<'a> EbpfVmMbuff<'a> {
         )
     }
 
+    /// Verification hook: machine code of the JIT-compiled program, if any.
+    #[cfg(all(rbpf_verif, not(windows)))]
+    pub fn verif_jit_code(&self) -> Option<&[u8]> {
+        self.jit.as_ref().map(|j| j.verif_code())
+    }
+
     /// JIT-compile the loaded program. No argument required for this.
     ///
     /// If using helper functions, be sure to register them into the VM before calling this
@@ -1107,6 +1113,12 @@ impl<'a> EbpfVmFixedMbuff<'a> {
         self.parent.execute_program(mem, &self.mbuff.buffer)
     }
 
+    /// Verification hook: machine code of the JIT-compiled program, if any.
+    #[cfg(all(rbpf_verif, not(windows)))]
+    pub fn verif_jit_code(&self) -> Option<&[u8]> {
+        self.parent.verif_jit_code()
+    }
+
     /// JIT-compile the loaded program. No argument required for this.
     ///
     /// If using helper functions, be sure to register them into the VM before calling this
@@ -1629,6 +1641,12 @@ impl<'a> EbpfVmRaw<'a> {
         self.parent.execute_program(mem, &[])
     }
 
+    /// Verification hook: machine code of the JIT-compiled program, if any.
+    #[cfg(all(rbpf_verif, not(windows)))]
+    pub fn verif_jit_code(&self) -> Option<&[u8]> {
+        self.parent.verif_jit_code()
+    }
+
     /// JIT-compile the loaded program. No argument required for this.
     ///
     /// If using helper functions, be sure to register them into the VM before calling this
@@ -2055,6 +2073,12 @@ impl<'a> EbpfVmNoData<'a> {
     /// ```
     pub fn register_allowed_memory(&mut self, addrs_range: Range<u64>) {
         self.parent.register_allowed_memory(addrs_range)
+    }
+
+    /// Verification hook: machine code of the JIT-compiled program, if any.
+    #[cfg(all(rbpf_verif, not(windows)))]
+    pub fn verif_jit_code(&self) -> Option<&[u8]> {
+        self.parent.verif_jit_code()
     }
 
     /// JIT-compile the loaded program. No argument required for this.
